@@ -13,6 +13,14 @@
 (* Frames may carry IPv4 header options (IHL 6..15) and TCP options (data     *)
 (* offset 6..10): the rewrites leave them alone, every length and checksum   *)
 (* is computed with them present.                                            *)
+(* Round 5: the IPv4 identification (ipid) and the ICMP echo identifier (eid) *)
+(* are fields, so that a frame can be chosen whose ones-complement sums land  *)
+(* on the special values of the Internet checksum (computed checksum 0: UDP   *)
+(* transmits 0xffff, TCP / ICMP / the IPv4 header transmit 0x0000; a sum that *)
+(* needs a second fold); nocs marks a UDP datagram whose sender generated no  *)
+(* checksum (field 0, RFC 768).  The blocks the checksums are computed over   *)
+(* are named (UdpBlock, TcpBlock, IcmpBlock, IpBlock) so that MCDatapath can  *)
+(* solve for such frames with the very operators Enc uses.                   *)
 (* Enc is the byte oracle of the check: TLC evaluates it for every frame    *)
 (* record that occurs in an exported behaviour (EncTable.tla) and for every *)
 (* frame observed in a recorded trace (TraceDatapath.tla).                  *)
@@ -68,13 +76,20 @@ PaySyms == DOMAIN Pay
 \*         fragment describe the whole datagram, not this frame.
 \* iopt  : IPv4 header options (symbol of IpOpt, "-" = none: IHL 5)
 \* topt  : TCP header options (symbol of TcpOpt, "-" = none: data offset 5)
+\* ipid  : IPv4 identification (default 0x1234)
+\* eid   : identifier of the ICMP echo request (default 7; sequence number 9)
+\* nocs  : UDP datagram sent WITHOUT a checksum (checksum field 0, RFC 768)
 \* Fields that do not exist in a frame have fixed values (canonical records):
 \* untagged => vid = pcp = cfi = 0; not IPv4 => tos = 0, nsrc = ndst = proto = iopt = "-",
-\* frag = 0; no TCP/UDP header => tsrc = tdst = 0; no (parsed) TCP header => topt = "-".
+\* frag = 0, ipid = 0; no TCP/UDP header => tsrc = tdst = 0; no (parsed) TCP header => topt = "-";
+\* no (parsed) ICMP header => eid = 0; no (parsed) UDP header => nocs = FALSE.
 Mk(dst, src, tag, vid, pcp, cfi, et, tos, nsrc, ndst, proto, frag, tsrc, tdst, pl) ==
   [dst |-> dst, src |-> src, tag |-> tag, vid |-> vid, pcp |-> pcp, cfi |-> cfi,
    et |-> et, tos |-> tos, nsrc |-> nsrc, ndst |-> ndst, proto |-> proto,
-   frag |-> frag, tsrc |-> tsrc, tdst |-> tdst, pl |-> pl, iopt |-> "-", topt |-> "-"]
+   frag |-> frag, tsrc |-> tsrc, tdst |-> tdst, pl |-> pl, iopt |-> "-", topt |-> "-",
+   ipid |-> IF et = "ip" THEN 4660 ELSE 0,
+   eid |-> IF et = "ip" /\ proto = "icmp" /\ frag = 0 THEN 7 ELSE 0,
+   nocs |-> FALSE]
 WithOpts(f, io, to) == [f EXCEPT !.iopt = io, !.topt = to]
 
 HasL4Ports(f) == f.et = "ip" /\ f.proto \in {"tcp", "udp"} /\ f.frag = 0
@@ -88,11 +103,13 @@ FrameOK(f) ==
   /\ IF f.et = "ip"
      THEN /\ f.tos \in 0..255 /\ f.nsrc \in IpSyms /\ f.ndst \in IpSyms
           /\ f.proto \in {"tcp", "udp", "icmp", "x"} /\ f.frag \in 0..2
-          /\ f.iopt \in DOMAIN IpOpt \cup {"-"}
-     ELSE f.tos = 0 /\ f.nsrc = "-" /\ f.ndst = "-" /\ f.proto = "-" /\ f.frag = 0 /\ f.iopt = "-"
+          /\ f.iopt \in DOMAIN IpOpt \cup {"-"} /\ f.ipid \in 0..65535
+     ELSE f.tos = 0 /\ f.nsrc = "-" /\ f.ndst = "-" /\ f.proto = "-" /\ f.frag = 0 /\ f.iopt = "-" /\ f.ipid = 0
   /\ IF f.et = "ip" /\ f.proto = "tcp" /\ f.frag = 0 THEN f.topt \in DOMAIN TcpOpt \cup {"-"} ELSE f.topt = "-"
   /\ f.tsrc \in 0..65535 /\ f.tdst \in 0..65535
   /\ (~HasL4Ports(f) => f.tsrc = 0 /\ f.tdst = 0)
+  /\ f.eid \in 0..65535 /\ (~(f.et = "ip" /\ f.proto = "icmp" /\ f.frag = 0) => f.eid = 0)
+  /\ f.nocs \in BOOLEAN /\ (f.nocs => f.et = "ip" /\ f.proto = "udp" /\ f.frag = 0)
 
 \* ---- the twelve standard actions -------------------------------------------
 \* An action is [t |-> type, n |-> number (port / vid / pcp / tos / tp port),
@@ -159,22 +176,23 @@ ProtoNum(f) == CASE f.proto = "tcp" -> 6 [] f.proto = "udp" -> 17
                  [] f.proto = "icmp" -> 1 [] OTHER -> 253
 Pseudo(f, l4len) == IpB[f.nsrc] \o IpB[f.ndst] \o <<0, ProtoNum(f)>> \o U16(l4len)
 
-TcpBytes(f) ==
-  LET pl == Pay[f.pl]
-      op == OptBytes(TcpOpt, f.topt)
-      h1 == U16(f.tsrc) \o U16(f.tdst) \o <<1, 2, 3, 4, 5, 6, 7, 8, (5 + Len(op) \div 4) * 16, 24>> \o U16(1000)
-      c  == Csum(Pseudo(f, 20 + Len(op) + Len(pl)) \o h1 \o <<0, 0, 0, 0>> \o op \o pl)
-  IN h1 \o U16(c) \o <<0, 0>> \o op \o pl
-UdpBytes(f) ==
-  LET pl == Pay[f.pl]
-      h1 == U16(f.tsrc) \o U16(f.tdst) \o U16(8 + Len(pl))
-      c0 == Csum(Pseudo(f, 8 + Len(pl)) \o h1 \o <<0, 0>> \o pl)
-      c  == IF c0 = 0 THEN 65535 ELSE c0           \* RFC 768: zero means "no checksum"
-  IN h1 \o U16(c) \o pl
-IcmpBytes(f) ==
-  LET pl == Pay[f.pl]
-      c  == Csum(<<8, 0, 0, 0, 0, 7, 0, 9>> \o pl)  \* echo request id 7 seq 9
-  IN <<8, 0>> \o U16(c) \o <<0, 7, 0, 9>> \o pl
+\* The blocks the transport checksums are computed over (checksum field zero).
+TcpHead(f) == U16(f.tsrc) \o U16(f.tdst)
+              \o <<1, 2, 3, 4, 5, 6, 7, 8, (5 + OptLen(TcpOpt, f.topt) \div 4) * 16, 24>> \o U16(1000)
+TcpBlock(f) == Pseudo(f, 20 + OptLen(TcpOpt, f.topt) + PLen(f)) \o TcpHead(f) \o <<0, 0, 0, 0>>
+               \o OptBytes(TcpOpt, f.topt) \o Pay[f.pl]
+UdpHead(f) == U16(f.tsrc) \o U16(f.tdst) \o U16(8 + PLen(f))
+UdpBlock(f) == Pseudo(f, 8 + PLen(f)) \o UdpHead(f) \o <<0, 0>> \o Pay[f.pl]
+IcmpBlock(f) == <<8, 0, 0, 0>> \o U16(f.eid) \o <<0, 9>> \o Pay[f.pl]   \* echo request, sequence number 9
+
+\* RFC 793: the checksum is the complement of the sum - also when that is 0x0000.
+TcpBytes(f) == TcpHead(f) \o U16(Csum(TcpBlock(f))) \o <<0, 0>> \o OptBytes(TcpOpt, f.topt) \o Pay[f.pl]
+\* RFC 768: "If the computed checksum is zero, it is transmitted as all ones"; an
+\* all-zero field means that the sender generated no checksum (nocs).
+UdpCsum(f) == LET c0 == Csum(UdpBlock(f)) IN IF c0 = 0 THEN 65535 ELSE c0
+UdpBytes(f) == UdpHead(f) \o U16(IF f.nocs THEN 0 ELSE UdpCsum(f)) \o Pay[f.pl]
+\* RFC 792: plain complement of the sum, 0x0000 included.
+IcmpBytes(f) == <<8, 0>> \o U16(Csum(IcmpBlock(f))) \o U16(f.eid) \o <<0, 9>> \o Pay[f.pl]
 L4Bytes(f) == IF f.frag # 0 THEN Pay[f.pl]
               ELSE CASE f.proto = "tcp"  -> TcpBytes(f)
                      [] f.proto = "udp"  -> UdpBytes(f)
@@ -182,13 +200,12 @@ L4Bytes(f) == IF f.frag # 0 THEN Pay[f.pl]
                      [] OTHER            -> Pay[f.pl]
 FragWord(f) == CASE f.frag = 0 -> <<64, 0>> [] f.frag = 1 -> <<32, 0>> [] OTHER -> <<0, 185>>
 \* version 4, IHL counts the options; total length covers header, options and payload;
-\* the header checksum covers the options
-IpHdr(f) ==
-  LET op == OptBytes(IpOpt, f.iopt)
-      h1 == <<64 + IpHdrLen(f) \div 4, f.tos>> \o U16(IpHdrLen(f) + L4Len(f)) \o <<18, 52>> \o FragWord(f)
-            \o <<64, ProtoNum(f)>>
-      ad == IpB[f.nsrc] \o IpB[f.ndst] \o op
-  IN h1 \o U16(Csum(h1 \o <<0, 0>> \o ad)) \o ad
+\* the header checksum covers the options (RFC 791: plain complement of the sum, 0x0000 included)
+IpHead(f) == <<64 + IpHdrLen(f) \div 4, f.tos>> \o U16(IpHdrLen(f) + L4Len(f)) \o U16(f.ipid) \o FragWord(f)
+             \o <<64, ProtoNum(f)>>
+IpTail(f) == IpB[f.nsrc] \o IpB[f.ndst] \o OptBytes(IpOpt, f.iopt)
+IpBlock(f) == IpHead(f) \o <<0, 0>> \o IpTail(f)
+IpHdr(f) == IpHead(f) \o U16(Csum(IpBlock(f))) \o IpTail(f)
 ArpBytes == <<0, 1, 8, 0, 6, 4, 0, 1>> \o MacB.mb \o IpB.ia \o <<0, 0, 0, 0, 0, 0>> \o IpB.ib
 BpduBytes == <<66, 66, 3>> \o [i \in 1..35 |-> i - 1]
 L3Bytes(f) == CASE f.et = "ip"   -> <<8, 0>> \o IpHdr(f) \o L4Bytes(f)
@@ -197,6 +214,13 @@ L3Bytes(f) == CASE f.et = "ip"   -> <<8, 0>> \o IpHdr(f) \o L4Bytes(f)
                 [] OTHER         -> <<136, 181>> \o Pay[f.pl]
 TagBytes(f) == IF f.tag THEN <<129, 0>> \o U16(f.pcp * 8192 + f.cfi * 4096 + f.vid) ELSE <<>>
 Enc(f) == MacB[f.dst] \o MacB[f.src] \o TagBytes(f) \o L3Bytes(f)
+
+\* Latitude (DESIGN 2.8): a datagram that arrived WITHOUT a UDP checksum leaves with the
+\* field still zero, or with the checksum of the datagram as it leaves filled in - both
+\* are "valid"; the property does not say which.  Every other octet is fixed.
+HasAlt(f) == f.nocs
+AltOf(f) == [f EXCEPT !.nocs = FALSE]
+EncAlts(f) == {Enc(f)} \cup (IF HasAlt(f) THEN {Enc(AltOf(f))} ELSE {})
 
 \* ---- properties of the oracle itself (checked by EncTable.tla) --------------
 EncOK(f) ==
@@ -210,10 +234,16 @@ EncOK(f) ==
                l4 == SubSeq(l3, hl + 1, Len(l3)) IN
            /\ l3[1] \div 16 = 4 /\ hl = IpHdrLen(f) /\ hl \in 20..60
            /\ Verifies(SubSeq(l3, 1, hl))                               \* IPv4 header checksum (incl. options)
+           /\ l3[11] * 256 + l3[12] # 65535                             \* the complement of a sum is 0xffff for an
+                                                                        \* all-zero block only: "negative zero" never appears
            /\ l3[3] * 256 + l3[4] = Len(l3)                             \* total length
-           /\ (f.frag = 0 /\ f.proto \in {"tcp", "udp"} => Verifies(Pseudo(f, Len(l4)) \o l4))
+           /\ (f.frag = 0 /\ f.proto = "tcp" => Verifies(Pseudo(f, Len(l4)) \o l4) /\ l4[17] * 256 + l4[18] # 65535)
+           /\ (f.frag = 0 /\ f.proto = "udp" =>                         \* zero iff no checksum was generated
+                 LET c == l4[7] * 256 + l4[8] IN
+                 IF f.nocs THEN c = 0 ELSE c # 0 /\ Verifies(Pseudo(f, Len(l4)) \o l4))
            /\ (f.frag = 0 /\ f.proto = "udp" => l4[5] * 256 + l4[6] = Len(l4))
+           /\ l3[5] * 256 + l3[6] = f.ipid
            /\ (f.frag = 0 /\ f.proto = "tcp" =>                         \* data offset covers the options
                  (l4[13] \div 16) * 4 = 20 + OptLen(TcpOpt, f.topt) /\ (l4[13] \div 16) * 4 <= Len(l4))
-           /\ (f.frag = 0 /\ f.proto = "icmp" => Verifies(l4)))
+           /\ (f.frag = 0 /\ f.proto = "icmp" => Verifies(l4) /\ l4[3] * 256 + l4[4] # 65535 /\ l4[5] * 256 + l4[6] = f.eid))
 =============================================================================
